@@ -5,6 +5,7 @@ import (
 	"encoding/hex"
 	"encoding/json"
 	"fmt"
+	"io"
 	"os"
 	"path/filepath"
 	"reflect"
@@ -30,6 +31,7 @@ import (
 	"github.com/flant/shell-operator/pkg/task"
 	"github.com/flant/shell-operator/pkg/task/queue"
 	"gopkg.in/alecthomas/kingpin.v2"
+	"gopkg.in/yaml.v3"
 )
 
 func init() { suites["c12"] = runC12 }
@@ -101,6 +103,21 @@ var c12MalformedShapes = []string{"strayclose", "garbage", "badtoken", "blank"}
 var c12MetricsClassesAll = append(append([]string{}, c12MetricsClasses...), c12MalformedShapes...)
 var c12RespClassesAll = append(append(append([]string{}, c12RespClasses...), c12MalformedShapes...), "twodocs")
 var c12PatchClassesAll = append(append([]string{}, c12PatchClasses...), c12MalformedShapes...)
+
+// does a YAML reader accept the whole text (as a sequence of documents of any shape)?
+func c12IsYAML(text string) bool {
+	dec := yaml.NewDecoder(strings.NewReader(text))
+	for {
+		var n yaml.Node
+		err := dec.Decode(&n)
+		if err == io.EOF {
+			return true
+		}
+		if err != nil {
+			return false
+		}
+	}
+}
 
 func c12Hex(s string) string { return "x" + hex.EncodeToString([]byte(s)) }
 
@@ -331,7 +348,16 @@ func c12Content(kind, class string, eid int, rng *Rng) (string, bool, string) {
 			if rng.Chance(30) {
 				recs = append(recs, mkJSON(fmt.Sprintf("c12-second-%d", eid)))
 			}
-			return c12Malform(rng, class, recs, PickOne(rng, []string{"\n", "\n", " ", ""})), true, "json"
+			// The patch file is "JSON or YAML": a text that is not JSON is handed to the YAML reader, and
+			// YAML's flow syntax accepts some damaged JSON (trailing comma, unquoted or single-quoted
+			// keys). Whether a text is YAML is not modelled: the generator stays out of that class — a
+			// damaged text that any YAML reader still accepts is replaced (a cut inside a record never is).
+			for try := 0; try < 8; try++ {
+				if t := c12Malform(rng, class, recs, PickOne(rng, []string{"\n", "\n", " ", ""})); !c12IsYAML(t) {
+					return t, true, "json"
+				}
+			}
+			return c12Malform(rng, "truncated", recs, "\n"), true, "json"
 		}
 	}
 	return "", false, "json"
